@@ -26,7 +26,7 @@ def outcome(fn, *args):
         return ("ok", repr(fn(*args)))
     except TypeError as e:
         s = str(e)
-        return ("ambiguous",) if s.startswith("Ambiguous") else ("nomethod",) if s.startswith("No method") else ("typeerror", s[:80])
+        return ("ambiguous",) if s.startswith("Ambiguous") else ("nomethod",) if s.startswith("No method") else ("typeerror", s.split("() ", 1)[-1][:80])
     except Exception as e:
         return ("error", type(e).__name__, str(e)[:80])
 
@@ -249,14 +249,48 @@ def c05():
     def fobj(x: object):
         return "obj"
 
+    def fopt(x: int, y: int = 7):
+        return ("opt", y)
+
+    def freq(x: int, y: str):
+        return ("req", y)
+
+    def fkwopt(x: int, *, k: int = 3):
+        return ("kwopt", k)
+
+    def fkwreq(x: str, *, k: int):
+        return ("kwreq", k)
+
     def ftint(x: type[int]):
         return "type[int]"
 
     def ftA(x: type[A]):
         return "type[A]"
 
-    fns = dict(fa=fa, fb=fb, fc=fc, fd=fd, fa2=fa2, fint=fint, fint2=fint2, fintb=fintb, fobj=fobj, ftint=ftint, ftA=ftA)
-    probes = [(A(),), (B(),), (C(),), (D(),), (1,), (int,), (bool,), (B,), (list[int],)]
+    def frn_x(x: int):
+        return "x-version"
+
+    def frn_y(y: int):
+        return "y-version"
+
+    renamed_fail = []
+    for order, gone, kwname_ok in ((("frn_x", "frn_y"), "frn_x", "y"), (("frn_y", "frn_x"), "frn_y", "x")):
+        fr = dict(frn_x=frn_x, frn_y=frn_y)
+        o = Ovld(name="rn")
+        for nm in order:
+            o.register(fr[nm])
+        outcome(o, 1)
+        o.unregister(fr[gone])
+        fresh = Ovld(name="rn")
+        fresh.register(fr[order[1]])
+        for kw_ in (dict(x=1), dict(y=1)):
+            n += 1
+            a, b = outcome(lambda: o(**kw_)), outcome(lambda: fresh(**kw_))
+            if a != b:
+                renamed_fail.append(dict(registered=list(order), unregistered=gone, call=kw_, got=a, fresh_function=b))
+
+    fns = dict(fa=fa, fb=fb, fc=fc, fd=fd, fa2=fa2, fint=fint, fint2=fint2, fintb=fintb, fobj=fobj, ftint=ftint, ftA=ftA, fopt=fopt, freq=freq, fkwopt=fkwopt, fkwreq=fkwreq)
+    probes = [(A(),), (B(),), (C(),), (D(),), (1,), (int,), (bool,), (B,), (list[int],), (1, 2), (1, "s")]
     scripts = [
         ["+fa", "+fb", "+fc", "call", "+fd", "call"],
         ["+fa", "call", "+fa2", "call", "-fa2", "call"],
@@ -267,6 +301,9 @@ def c05():
         ["+fint", "+fintb", "-fintb", "+fint2", "call"],  # replace, unregister the replacement, add a different signature
         ["+fobj", "call", "+ftint", "call", "+ftA", "call", "-ftint", "call"],  # class-valued parameters arrive after first use
         ["+fobj", "+fa", "call", "+ftA", "call"],
+        ["+freq", "+fopt", "call", "-fopt", "call"],  # a parameter becomes required again: the entry point must lose its default
+        ["+fopt", "call", "+freq", "-fopt", "call", "+fopt", "call"],
+        ["+fkwreq", "+fkwopt", "call", "-fkwopt", "call"],
     ]
     per_script = {}
     for si, script in enumerate(scripts):
@@ -294,6 +331,11 @@ def c05():
                     a, b = outcome(o, *pr), outcome(fresh, *pr)
                     if a != b:
                         per_script.setdefault(si, []).append(dict(script=script, upto=step, probe=repr(pr), got=a, fresh_function=b))
+                for args_, kw_ in (((1,), dict(k=5)), (("s",), dict(k=5)), (("s",), {}), ((1,), dict(y=2)), ((1,), dict(x=1)) if False else ((1,), dict(k="no"))):
+                    n += 1
+                    a, b = outcome(lambda: o(*args_, **kw_)), outcome(lambda: fresh(*args_, **kw_))
+                    if a != b:
+                        per_script.setdefault(si, []).append(dict(script=script, upto=step, probe=repr((args_, kw_)), got=a, fresh_function=b))
     # linked children: a change on the parent reaches a linked child that is in use even if the parent never was
     for parent_used in (False, True):
         par = Ovld(name="par")
@@ -313,7 +355,10 @@ def c05():
             a, b = outcome(child, *pr), outcome(fresh, *pr)
             if a != b:
                 per_script.setdefault(100 + int(parent_used), []).append(dict(scenario="register on parent of a linked child in use", parent_used=parent_used, probe=repr(pr), got=a, fresh_function=b))
-    return n, [dict(name=f"equals_fresh_function_after_changes.script{si}", n_violations=len(v), violations=v[:3]) for si, v in sorted(per_script.items())]
+    out_ = [dict(name=f"equals_fresh_function_after_changes.script{si}", n_violations=len(v), violations=v[:3]) for si, v in sorted(per_script.items())]
+    if renamed_fail:
+        out_.append(dict(name="equals_fresh_function_after_reregistration_under_another_parameter_name", n_violations=len(renamed_fail), violations=renamed_fail[:3]))
+    return n, out_
 
 
 def c20():
@@ -360,13 +405,19 @@ def c20():
     def f7(x: str, y: Heavy[10] & Heavy[5]):
         return ["str,heavy-inter"]
 
-    for g in (f, f2, f3, f4, f5, f6, f7):
+    def f8(x: float, y: Heavy[30], z: Bish):  # (Heavy[10] here would sit next to the union above: open finding F-mirror[Union,FuncDep])
+        return ["float,heavy,bish"]
+
+    def f9(x: float, y: object, z: object):
+        return ["float,o,o"]
+
+    for g in (f, f2, f3, f4, f5, f6, f7, f8, f9):
         o.register(g)
 
     class BW(B):
         w = 50
 
-    probes = [(A(),), (B(),), (E(),), (1, B()), (1,), (BW(),), (1, BW()), ("s", BW())]
+    probes = [(A(),), (B(),), (E(),), (1, B()), (1,), (BW(),), (1, BW()), ("s", BW()), (1.5, BW(), B()), (1.5, B(), B())]
     for p in probes:
         outcome(o, *p)
     import inspect
